@@ -504,6 +504,16 @@ pub fn gen(r: &mut Rng) -> (Program, World) {
             },
         });
     }
+    // half of the references point at a UTxO the transaction also spends (the sender's): it is then both an input
+    // and a reference input of the transaction
+    if let Some(first) = w.utxos.iter().find(|u| u.party == "Sender") {
+        let (txid, index) = (hx(&first.txid), first.index as u64);
+        for (_, e) in t.references.iter_mut() {
+            if r.chance(1, 2) {
+                *e = E::UtxoRef(txid.clone(), index);
+            }
+        }
+    }
     p.txs.push(t);
     (p, w)
 }
